@@ -184,6 +184,71 @@ fn check_prefix(st: &mut St, want: &[u8], n: usize, out: &mut Out, what: &str) {
     st.peer.set_nonblocking(false).unwrap();
 }
 
+
+/// strict reader of what a client would get: -> (body bytes, message complete by its own framing)
+fn read_h1(wire: &[u8], eof: bool) -> Result<(Vec<u8>, bool), String> {
+    let Some(pos) = wire.windows(4).position(|w| w == b"\r\n\r\n") else { return Ok((vec![], false)) };
+    let head = String::from_utf8_lossy(&wire[..pos]).to_ascii_lowercase();
+    let mut cl: Option<usize> = None;
+    let mut chunked = false;
+    for l in head.split("\r\n").skip(1) {
+        if let Some(v) = l.strip_prefix("content-length:") {
+            if cl.is_some() {
+                return Err("two content-length headers".into());
+            }
+            cl = Some(v.trim().parse().map_err(|_| "bad content-length".to_string())?);
+        }
+        if l.starts_with("transfer-encoding:") && l.contains("chunked") {
+            chunked = true;
+        }
+    }
+    let rest = &wire[pos + 4..];
+    if chunked && cl.is_some() {
+        return Err("both content-length and chunked".into());
+    }
+    if chunked {
+        let mut body = vec![];
+        let mut i = 0usize;
+        loop {
+            let Some(e) = rest[i..].windows(2).position(|w| w == b"\r\n") else { return Ok((body, false)) };
+            let line = String::from_utf8_lossy(&rest[i..i + e]).to_string();
+            let hex = line.split(';').next().unwrap_or("").trim().to_string();
+            let sz = usize::from_str_radix(&hex, 16).map_err(|_| format!("bad chunk size line {line:?}"))?;
+            let start = i + e + 2;
+            if sz == 0 {
+                // trailers up to the empty line
+                let mut j = start;
+                loop {
+                    let Some(e2) = rest[j..].windows(2).position(|w| w == b"\r\n") else { return Ok((body, false)) };
+                    if e2 == 0 {
+                        return if j + 2 == rest.len() { Ok((body, true)) } else { Err("bytes after the last chunk".into()) };
+                    }
+                    j += e2 + 2;
+                }
+            }
+            if rest.len() < start + sz {
+                body.extend_from_slice(&rest[start..]);
+                return Ok((body, false));
+            }
+            body.extend_from_slice(&rest[start..start + sz]);
+            if rest.len() < start + sz + 2 {
+                return Ok((body, false));
+            }
+            if &rest[start + sz..start + sz + 2] != b"\r\n" {
+                return Err("chunk data not followed by CRLF".into());
+            }
+            i = start + sz + 2;
+        }
+    } else if let Some(n) = cl {
+        if rest.len() > n {
+            return Err("bytes after the declared length".into());
+        }
+        Ok((rest.to_vec(), rest.len() == n))
+    } else {
+        Ok((rest.to_vec(), eof))
+    }
+}
+
 fn run(case: &Case, out: &mut Out) {
     let mut st = new_pair();
     let mut tls: Option<Tls> = None;
@@ -265,6 +330,146 @@ fn run(case: &Case, out: &mut Out) {
                     out.viol("tls-stall", &format!("vectored retry loop stopped at {done}/{} with status Continue", flat.len()));
                 }
                 tls_settle(t, out, "tlswritev");
+            }
+            "h1rt" => {
+                // h1rt <kind 0 cl | 1 chunked | 2 close-delimited> <cut or -1> <seed> S <segment sizes>.. C <chunk sizes>..
+                use sozu_lib::protocol::http::editor::HttpContext;
+                let kind = a[0].n();
+                let cut = a[1].n();
+                let seed = a[2].n() as u64;
+                let (mut segs, mut cs, mut mode) = (vec![], vec![], 0);
+                for t in &a[3..] {
+                    match t {
+                        Tok::S(m) if m == "S" => mode = 1,
+                        Tok::S(m) if m == "C" => mode = 2,
+                        Tok::N(n) if mode == 1 => segs.push((*n as usize).max(1)),
+                        Tok::N(n) if mode == 2 => cs.push(*n as usize),
+                        _ => {}
+                    }
+                }
+                let chunks: Vec<Vec<u8>> = cs.iter().enumerate().map(|(i, n)| pattern(*n, seed + i as u64)).collect();
+                let body: Vec<u8> = chunks.concat();
+                let mut msg: Vec<u8> = vec![];
+                // layout: data[i] = true for body bytes
+                let mut is_data: Vec<bool> = vec![];
+                let push = |m: &mut Vec<u8>, d: &mut Vec<bool>, b: &[u8], data: bool| {
+                    m.extend_from_slice(b);
+                    d.extend(std::iter::repeat(data).take(b.len()));
+                };
+                match kind {
+                    0 => {
+                        push(&mut msg, &mut is_data, format!("HTTP/1.1 200 OK\r\nContent-Length: {}\r\nX-K: v\r\n\r\n", body.len()).as_bytes(), false);
+                        push(&mut msg, &mut is_data, &body, true);
+                    }
+                    1 | 3 => {
+                        push(&mut msg, &mut is_data, b"HTTP/1.1 200 OK\r\nTransfer-Encoding: chunked\r\nTrailer: X-T\r\n\r\n", false);
+                        for (i, c) in chunks.iter().enumerate() {
+                            if c.is_empty() {
+                                continue; // a zero-size chunk would be the terminator
+                            }
+                            let ext = if kind == 3 && i % 2 == 1 { ";name=value" } else { "" };
+                            push(&mut msg, &mut is_data, format!("{:x}{ext}\r\n", c.len()).as_bytes(), false);
+                            push(&mut msg, &mut is_data, c, true);
+                            push(&mut msg, &mut is_data, b"\r\n", false);
+                        }
+                        push(&mut msg, &mut is_data, b"0\r\n", false);
+                        if seed % 2 == 1 {
+                            push(&mut msg, &mut is_data, b"X-T: done\r\n", false);
+                        }
+                        push(&mut msg, &mut is_data, b"\r\n", false);
+                    }
+                    _ => {
+                        push(&mut msg, &mut is_data, b"HTTP/1.1 200 OK\r\nConnection: close\r\n\r\n", false);
+                        push(&mut msg, &mut is_data, &body, true);
+                    }
+                }
+                let whole = cut < 0 || cut as usize >= msg.len();
+                let input = if whole { &msg[..] } else { &msg[..cut as usize] };
+                let want_body: Vec<u8> = input.iter().zip(is_data.iter()).filter(|(_, d)| **d).map(|(b, _)| *b).collect();
+                // the production objects: pool buffer, Kawa<Checkout>, HttpContext as parser callbacks
+                let pool = std::rc::Rc::new(std::cell::RefCell::new(sozu_lib::pool::Pool::with_capacity(1, 2, 16_393)));
+                let buffer = pool.borrow_mut().checkout().expect("checkout");
+                let mut kawa = kawa::Kawa::new(kawa::Kind::Response, kawa::Buffer::new(buffer));
+                let mut ctx = HttpContext::new(
+                    rusty_ulid::Ulid::generate(), rusty_ulid::Ulid::generate(), sozu_lib::Protocol::HTTP,
+                    "127.0.0.1:8080".parse().unwrap(), Some("127.0.0.1:40000".parse().unwrap()),
+                    "SOZUBALANCEID".to_string(), "Sozu-Id".to_string(), false, false,
+                );
+                let mut wire: Vec<u8> = vec![];
+                let flush = |kawa: &mut kawa::Kawa<sozu_lib::pool::Checkout>, wire: &mut Vec<u8>| {
+                    kawa.prepare(&mut kawa::h1::BlockConverter);
+                    let mut n = 0;
+                    {
+                        let buf = kawa.storage.buffer();
+                        for b in kawa.out.iter() {
+                            if let kawa::OutBlock::Store(st) = b {
+                                let d = st.data(buf);
+                                wire.extend_from_slice(d);
+                                n += d.len();
+                            }
+                        }
+                    }
+                    kawa.consume(n);
+                };
+                let mut off = 0usize;
+                let mut si = 0usize;
+                let mut stuck = false;
+                while off < input.len() {
+                    let seg = segs.get(si % segs.len().max(1)).copied().unwrap_or(input.len());
+                    si += 1;
+                    let room = kawa.storage.available_space();
+                    if room == 0 {
+                        stuck = true;
+                        break;
+                    }
+                    let n = seg.min(room).min(input.len() - off);
+                    kawa.storage.space()[..n].copy_from_slice(&input[off..off + n]);
+                    kawa.storage.fill(n);
+                    off += n;
+                    kawa::h1::parse(&mut kawa, &mut ctx);
+                    if kawa.is_error() {
+                        break;
+                    }
+                    if kawa.is_main_phase() {
+                        flush(&mut kawa, &mut wire);
+                    }
+                }
+                if stuck {
+                    out.viol("h1-stuck", "kawa storage full with unparsed input and nothing to flush");
+                }
+                let eof_terminated = whole && kind == 2 && !kawa.is_error();
+                if eof_terminated && !kawa.is_terminated() {
+                    // mux/h1.rs terminate_close_delimited on a graceful EOF
+                    kawa.push_block(kawa::Block::Flags(kawa::Flags { end_body: true, end_chunk: false, end_header: false, end_stream: true }));
+                    kawa.parsing_phase = kawa::ParsingPhase::Terminated;
+                }
+                if !kawa.is_error() {
+                    flush(&mut kawa, &mut wire);
+                }
+                let (got, complete) = match read_h1(&wire, eof_terminated) {
+                    Ok(x) => x,
+                    Err(e) => {
+                        out.viol("h1-malformed-out", &format!("kind {kind}: serialised output is not a valid message: {e}"));
+                        (vec![], false)
+                    }
+                };
+                if kawa.is_error() {
+                    out.obs(&[tn(0), tbool(false), tbool(false), tbool(true)]);
+                } else {
+                    out.obs(&[tn(got.len()), tbool(complete), tbool(kawa.is_terminated()), tbool(false)]);
+                }
+                if kawa.is_error() {
+                    let class = if kind == 3 { "h1-chunk-ext" } else { "h1-parse-error" };
+                    out.viol(class, &format!("kind {kind}: kawa rejected a well-formed response (cut {cut})"));
+                } else {
+                    if got != want_body {
+                        let i = got.iter().zip(want_body.iter()).position(|(x, y)| x != y).unwrap_or(got.len().min(want_body.len()));
+                        out.viol("h1-body", &format!("kind {kind} cut {cut}: body out ({} bytes) differs from body in ({} bytes) at offset {i}", got.len(), want_body.len()));
+                    }
+                    if complete != whole {
+                        out.viol("h1-terminator", &format!("kind {kind} cut {cut}: output complete={complete} but input terminated={whole}"));
+                    }
+                }
             }
             "h2conv" => {
                 // h2conv <max> <ended> <seed> W <w>.. C <n>..
